@@ -434,8 +434,23 @@ func keySwitch(p *pkg, fname string, namesArr string) (cases []KeyCase, deflt []
 			deflt = append(append([]string{}, parse...), methods...)
 			if len(deflt) == 0 {
 				deflt = []string{"reject"}
+			} else if len(cl.Body) == 1 {
+				// `default: return x.setCostValue(key, value)` leaves the whole loop, also on success
+				if rs, ok := cl.Body[0].(*ast.ReturnStmt); ok && len(rs.Results) == 1 {
+					if _, isCall := rs.Results[0].(*ast.CallExpr); isCall {
+						deflt = append([]string{"return"}, deflt...)
+					}
+				}
 			}
 			continue
+		}
+		// a case that returns a call result directly would leave the loop on success as well: not modelled
+		for _, st := range cl.Body {
+			if rs, ok := st.(*ast.ReturnStmt); ok && len(rs.Results) == 1 {
+				if _, isCall := rs.Results[0].(*ast.CallExpr); isCall && !strings.Contains(src(rs), "Errorf") && !strings.Contains(src(rs), "errors.New") {
+					die("%s: case %s returns a call result from inside the loop", fname, src(cl.List[0]))
+				}
+			}
 		}
 		path := ""
 		for _, st := range cl.Body {
